@@ -100,6 +100,7 @@ fn run_once(p: &Params, prefix: Vec<usize>, random: Option<u64>) -> Outcome {
                 if sqpoll {
                     let before = simk::kernel().notes.len();
                     simk::kernel().consume(rfd, 1);
+                    sched::note_progress();
                     let k = simk::kernel();
                     for n in &k.notes[before..] {
                         if let Note::Consumed { sqe, index, .. } = n {
